@@ -97,6 +97,8 @@ class Prop(BaseProp):
     id = "C20"
     theorems = ["C20_validators_sound", "C20_accepted_rows_bip44_shaped", "C20_existing_file_refused", "C20_no_command_refused"]
     exec_modules = ["Exec.C20"]
+    extra_modules = {"C20Src": ["C20_source_validators_are_model", "C20_source_index_ranges", "C20_source_translated"]}
+    pysem_funcs = ["__main__.value_in_interval", "__main__.address_index", "__main__.account_index", "__main__.extended_key", "__main__.mnemonic", "__main__.bip39_seed", "__main__.entropy_hex"]
     exec_import = "From BHW Require Import Lib.Base Exec.Common Model.Cli Exec.C20.\nFrom Coq Require Import String.\nOpen Scope string_scope."
     shard = 60
     rule = ("Val: each validator on strings at and around every bound (account 0 / 2^31-2 / 2^31-1 / 2^31, address index 2^31-1 / 2^31 / 2^32-2 / "
